@@ -150,7 +150,7 @@ func (f *field) TokenReader() xml.TokenReader {
 			continue
 		}
 		// Some list types are only allowed to have a single value.
-		if firstVal && f.typ != "list-multi" && f.typ != "jid-multi" && f.typ != "text-multi" {
+		if firstVal && f.typ != TypeListMulti && f.typ != TypeJIDMulti && f.typ != TypeTextMulti && f.typ != TypeHidden {
 			break
 		}
 		switch f.typ {
